@@ -282,4 +282,12 @@ pub fn possible_intersection<F>(""")]),
     M('intoiter-next-drops-inner-subtree', ['C17'], [(TR, "                    cur.left = node.pop_right();\n", "")], {'C17': 'M-inorder'}),
     M('splay-link-slot-outer-end', ['C17'], [(TR, "                    r = &mut tmp.as_mut().unwrap().left;", "                    r = &mut tmp.as_mut().unwrap().right;")], {'C17': 'M-inorder'}),
     B('insert-less-bind-new-first', ['C17'], [(TR, "                        let prev = mem::replace(root, new);\n                        root.right = Some(prev);", "                        let old_root = mem::replace(root, new);\n                        let slot = &mut root.right;\n                        *slot = Some(old_root);")]),
+    # ---- exact algebra of the reported intersection point (I-algebra)
+    M('midpoint-y-uses-dx', ['C16', 'C04'], [(SI, "        y: p.y + s * d.y,\n    }\n}", "        y: p.y + s * d.x,\n    }\n}")], {'C16': 'I-algebra'}),
+    M('cross-product-plus', ['C16'], [(SI, "    a.x * b.y - a.y * b.x", "    a.x * b.y + a.y * b.x")], {'C16': 'I-algebra'}),
+    M('e-vector-reversed', ['C16', 'C04'], [(SI, "        x: b1.x - a1.x,\n        y: b1.y - a1.y,", "        x: a1.x - b1.x,\n        y: a1.y - b1.y,")], {'C16': 'I-algebra'}),
+    M('sb-from-vb-squared', ['C16'], [(SI, "    let sb = sa + dot_product(va, vb) / sqr_len_a;", "    let sb = sa + dot_product(vb, vb) / sqr_len_a;")], {'C16': 'I-algebra'}),
+    M('t-point-on-a', ['C16'], [(SI, "            return LineIntersection::Point(mid_point(b1, t, vb));", "            return LineIntersection::Point(mid_point(a1, t, va));")], {'C16': 'I-algebra'}),
+    B('midpoint-lerp-form', ['C16', 'C04', 'C08'], [(SI, "        x: p.x + s * d.x,\n        y: p.y + s * d.y,\n    }\n}", "        x: d.x * s + p.x,\n        y: d.y * s + p.y,\n    }\n}")]),
+    B('cross-product-commuted', ['C16', 'C04', 'C10'], [(SI, "    a.x * b.y - a.y * b.x", "    b.y * a.x - b.x * a.y")]),
 ]
